@@ -58,6 +58,7 @@ def run(ctx):
     generic_run(ctx, LABELS, extra=extra, plan=[("repeat", lambda: F.fam_c01(ctx.rng, sizes(ctx, 300, 3000), tag="c17", expect=("nodisconnect", "repeat"))),
                               ("repeat_double_death", lambda: F.fam_double_death(ctx.rng, sizes(ctx, 60, 600), tag="c17dd", expect=("repeat",))),
                               ("repeat_delay", lambda: F.fam_delay(ctx.rng, sizes(ctx, 120, 1200), tag="c17d", expect=("nodisconnect", "repeat"))),
+                              ("repeat_two_drops_gossip", lambda: F.fam_two_drops_gossip(ctx.rng, sizes(ctx, 40, 400))),
                               ("repeat_handshake_late", lambda: F.fam_handshake_late(ctx.rng, sizes(ctx, 80, 800)))])
 
 def replay(ctx, path):
